@@ -26,6 +26,46 @@ add(["C16"], "parse", "exploration", "runtime monitor over the real lexer's toke
     "The token stream of the real lexer is read up to its first EOF/ERROR for every enumerated, generated and mutated input and checked token by token against the input.",
     PARSE_NOTE, "DESIGN.md 6/C16")
 
+HIST_NOTE = ("Trusted: the side-effect log written by the commands themselves as ground truth for 'ran' and 'succeeded'; the harness's cache "
+             "reference model and glob reference matcher; state merging assumes an invocation's behaviour depends only on the project directory. "
+             "Exhaustive only within the stated small universes; held on the executions produced.")
+add(["C01", "C02", "C14"], "history", "exploration",
+    "runtime monitor over invocation histories: breadth-first search over real project states to a fixpoint + seeded random histories, cache reference model as oracle",
+    "Every (state, operation) pair of a small universe is executed once by the real code (in-process, fresh SpokFile per invocation; a sample through the race-built binary) on 8 spokfile shapes, to a fixpoint where reported, plus random histories in a larger universe; the monitor compares every skip / re-run with a reference model of each task's last success built from the commands' own side-effect log.",
+    HIST_NOTE, "DESIGN.md 6/C01 C02 C14")
+add(["C03"], "graph", "exploration",
+    "runtime monitor with a recording shell.Runner over all digraphs on <=4 tasks x request lists, repeated for map-order variation; binary sample",
+    "All dependency graphs on up to 3 (thorough: 4) tasks with all request sets, sampled larger ones and error variants are loaded and run repeatedly in-process with a recording runner; the monitor checks closure, exactly-once, dependency order and error-runs-nothing against a graph model.",
+    "Trusted: the harness's graph model (closure, cycle detection). In-process runs execute no command; the binary sample uses printf/true/false.", "DESIGN.md 6/C03")
+add(["C04"], "hash", "exploration",
+    "Go race detector + metamorphic digest table over child processes under taskset x GOMAXPROCS with injected delays at hash hooks",
+    "The real hasher runs in child processes for every (CPU affinity, GOMAXPROCS) configuration under the race detector with seeded delays; one global table over all content states, permutations and configurations decides 'same collection => same digest' and 'different set => different digest'.",
+    "Trusted: Go race runtime, taskset; SHA-256 collisions and crafted path strings are out of scope. The race detector only sees interleavings that occur.", "DESIGN.md 6/C04")
+add(["C05"], "glob", "exploration",
+    "runtime monitor: every subset tree of a path pool x pattern list expanded by the real loader, compared with a reference matcher over a full directory walk",
+    "Every subset of the candidate path pool is materialised; the real loader expands all patterns (twice) and the public Globs map is compared per pattern with an independent reference matcher (cross-checked against doublestar.Match at start-up).",
+    "Trusted: the reference matcher; hidden = relative path begins with '.'; exhaustive over the pool and pattern list only.", "DESIGN.md 6/C05")
+add(["C09", "C13", "C20"], "cli", "exploration",
+    "runtime monitor over the race-built binary: generated programs, side-effect log and --json reports compared with the generating structure",
+    "Seeded random programs are run through the race-built binary in sandboxes; exit status, stdout/stderr, --json reports and the commands' own side-effect log are compared with what the generating structure demands.",
+    "Trusted: the in-process shell builtins (printf, test, exit) used by generated commands; expected values computed by the harness.", "DESIGN.md 6/C09 C13 C20")
+add(["C10"], "crash", "fault_enumeration",
+    "fault injection at every hook point (SIGKILL from inside), kill -9 inside every command position, byte-prefixes of every cache write; continuations judged by the cache model",
+    "For reachable project states and runs, the run is recorded once and then repeated by the real binary with SIGKILL at every hook point index, with a self-kill in every command position and with prefixes of every cache content installed; each damaged state is followed by edit/revert/run continuations judged by the cache reference model.",
+    HIST_NOTE + " A torn write is modelled as a byte-prefix of the new content; block reordering after power loss is out of reach from user space.", "DESIGN.md 6/C10")
+add(["C12", "C19"], "fswatch", "exploration",
+    "syscall monitor (strace -f of the race-built binary) + full before/after snapshots against the write set the action allows",
+    "Random project trees x spokfiles x actions run under strace; every successful mutating system call and the full snapshot diff of the sandbox must lie inside the write set the chosen action allows (declared outputs and cache for --clean; spokfile for a loadable --fmt; new spokfile + appended .gitignore for --init; cache directory otherwise).",
+    "Trusted: strace, the harness's reference denotation of outputs; the sandbox is deep enough that 'above the project' is scratch space.", "DESIGN.md 6/C12 C19")
+add(["C17"], "find", "exploration",
+    "runtime monitor with a step bound enforced from inside the loop (injected logger + find.iter hook) over all directory chains; binary sample",
+    "All directory chains of depth <=4 (thorough 5) x start x stop are built and file.Find is called in-process with a counting logger and hook that stop a walk exceeding path-depth+1 iterations; the result is compared with a reference (nearest regular file named spokfile).",
+    "Termination is a logical step bound, not wall-clock. Where start is not at or below stop both readings of the statement are accepted.", "DESIGN.md 6/C17")
+add(["C18"], "hash", "fault_enumeration",
+    "Go race detector + fault injection through hook callbacks (vanish/truncate/replace between listing, open and read), hostile entries at every position, goroutine accounting in child workers",
+    "Lists with a hostile entry (missing, dangling, directory, duplicate, vanishing before open, changing after open, unreadable) at every position and sizes around 4*NumCPU are hashed repeatedly in supervised child processes per CPU configuration under the race detector; crashes, stalls, races, digests for unreadable entries and leaked worker goroutines are violations.",
+    "Trusted: Go race runtime; goroutine conservation = start/exit hook events and runtime.NumGoroutine after quiescence polling.", "DESIGN.md 6/C18")
+
 PENDING = {}
 
 def main():
